@@ -118,6 +118,7 @@ type TermStore struct {
 	ufs map[string][]int
 	// variable ranges assumed at creation (ranges.go)
 	varRange   map[*Term]rng
+	learned    map[*Term]rng
 	rangeEpoch int
 }
 
@@ -453,6 +454,10 @@ func (s *TermStore) Bin(op Op, a, b *Term) *Term {
 		if b.IsConst() {
 			return s.Bin(OpAdd, a, s.Const(w, -b.val))
 		}
+		// 0 - (0 - x) = x
+		if a.IsConst() && a.val == 0 && b.op == OpSub && b.args[0].IsConst() && b.args[0].val == 0 {
+			return b.args[1]
+		}
 	case OpMul:
 		if a.IsConst() {
 			a, b = b, a
@@ -519,6 +524,22 @@ func (s *TermStore) Bin(op Op, a, b *Term) *Term {
 		if b.IsConst() && s.varRange != nil && b.val < uint64(1)<<uint(w-1) && s.Range(a).hi < uint64(1)<<uint(w-1) {
 			if r := s.divByConst(op == OpSRem, a, b.val); r != nil {
 				return r
+			}
+		}
+		// numerator entirely negative: Go (and bvsdiv/bvsrem) truncate toward zero, so
+		// a / c = -((-a) / c) and a % c = -((-a) % c)
+		if b.IsConst() && s.varRange != nil && w == 64 && b.val > 0 && b.val < uint64(1)<<63 && !a.IsConst() {
+			// a = -(X) with X non-negative (a may be zero): same identity
+			if a.op == OpSub && a.args[0].IsConst() && a.args[0].val == 0 && s.Range(a.args[1]).hi < uint64(1)<<63 {
+				if r := s.divByConst(op == OpSRem, a.args[1], b.val); r != nil {
+					return s.Neg(r)
+				}
+			}
+			if ra := s.Range(a); ra.lo > uint64(1)<<63 {
+				na := s.Neg(a)
+				if r := s.divByConst(op == OpSRem, na, b.val); r != nil {
+					return s.Neg(r)
+				}
 			}
 		}
 	}
